@@ -287,24 +287,28 @@ impl<'a, D: Dataset + ?Sized> ExecState<'a, D> {
     fn graph_rec(
         &mut self,
         var: &str,
-        mut graph_names: std::collections::btree_set::IntoIter<ArcTerm>,
+        graph_names: std::collections::btree_set::IntoIter<ArcTerm>,
         inner: &GraphPattern,
         binding: Option<&Binding>,
     ) -> Result<Bindings<'a, D>, SparqlWrapperError<D::Error>> {
-        if let Some(name) = graph_names.next() {
+        // the variables are those of the first graph name (none if there is no graph name)
+        let mut variables = vec![];
+        let mut iters = vec![];
+        for name in graph_names {
             let mut b = binding.cloned().unwrap_or_else(Binding::default);
             b.v.insert(self.stash.copy_str(var), name.clone().into());
             let graph_matcher = vec![Some(name)];
-            let Bindings { variables, iter } = self.select(inner, &graph_matcher, Some(&b))?;
-            let iter = Box::new(iter.chain(Box::new(
-                self.graph_rec(var, graph_names, inner, binding)?.iter,
-            )));
-            Ok(Bindings { variables, iter })
-        } else {
-            let variables = vec![];
-            let iter = Box::new(std::iter::empty());
-            Ok(Bindings { variables, iter })
+            let Bindings {
+                variables: vars,
+                iter,
+            } = self.select(inner, &graph_matcher, Some(&b))?;
+            if iters.is_empty() {
+                variables = vars;
+            }
+            iters.push(iter);
         }
+        let iter = Box::new(iters.into_iter().flatten());
+        Ok(Bindings { variables, iter })
     }
 
     fn extend(
